@@ -87,6 +87,20 @@ def c04_case(case):
     return out
 
 
+# anonymous variables, local variables of joined aggregates and tuple variables where the traits build new rules/elements
+HAND = [
+    "{ shift(D,L) : pshift(D,L) } 1 :- day(D). a(X) :- X = #sum { L : shift(_,L) }.",
+    "{ shift(D,L) : pshift(D,L) } 1 :- day(D). #minimize { L : shift(_,L) }.",
+    "{ shift(D,L) : pshift(D,L) } 1 :- day(D). a(X) :- X = #sum { L,D : shift(D,L), ok(_) }.",
+    "{ opt(S,V) } :- c(S,V). best(M) :- M = #max { V : opt(S,V) }, S = #sum { W,Y : item(Y), weight(Y,W) }.",
+    "{ opt(S,V) } :- c(S,V). best(M) :- M = #min { V : opt(S,V) }, q(S,_), 1 { r(S,Z) : d(Z) }.",
+    "a(X) :- X = #count { M1,W : match(M1,W), match(M2,W), M1 != M2 }.",
+    "q(X) :- p(X), X = f(_). r(Y) :- p(Y), Y = (_,1), s(Y).",
+    "{ p(X) } :- d(X). :- p(A), p(B), A != B, e(_).",
+    "s(A,B) :- a(A), B = #sum { Y : person(A,Y,_) }. foo(X) :- X = #sum { F,V : s(V,F), t(_) }. { a(X) } :- d(X). #show foo/1.",
+]
+
+
 def run(ctx) -> int:
     core.prepare_lean(ctx, MODULE)
     if ctx.driver_ok:
@@ -99,7 +113,10 @@ def run(ctx) -> int:
             ctx.mismatches.append({"op": m["op"], "program": m["program"], "impl": str(m["impl"])[:400], "model": str(m["model"])[:400]})
         ctx.cov["samples"].append({"correspondence": "binding analysis", "evaluations": r["evaluations"]})
     own = {f["id"]: f for f in core.findings_for(ctx)}
-    known = {f["id"]: f for f in core.findings_by_site(ctx)}
+    # a finding explains an INVALID result only if it lists C04 or its mechanism is marked as able to produce one
+    # (`invalid_output` in known_findings.json): a defect that merely changes the meaning (e.g. D16, the anonymous group of
+    # a sum chain) is no explanation for an unsafe rule on a program of the same shape (corrections log 20)
+    known = {f["id"]: f for f in core.findings_by_site(ctx) if "C04" in f.get("properties", []) or f.get("invalid_output")}
     default = semcheck.flags_only(*[t for t in semcheck.ALL_TRAITS if t != "duplication"])
     allf = semcheck.flags_only(*semcheck.ALL_TRAITS)
     H = corpus.harvest()
@@ -107,6 +124,7 @@ def run(ctx) -> int:
     texts += [gen.mutate(ctx.rng, ctx.rng.choice(H)[1]) for _ in range(50 if ctx.quick() else 2000)]
     for f in own.values():
         texts.append(f["witness"]["program"])
+    texts += HAND * 2
     cases = []
     for k, t in enumerate(texts):
         fl = ctx.rng.choice([default, default, allf, semcheck.flags_only(ctx.rng.choice(semcheck.ALL_TRAITS)), semcheck.flags_only()])
